@@ -245,6 +245,19 @@ def block_verdict(b):
     return False, None
 
 
+def failed_command(b):
+    """a `** Exec-k …` line of the block reports a failure"""
+    for l in b[2:-2]:
+        t = "".join(c for c in ANSI.sub("", l) if ord(c) >= 32)
+        if t.startswith("** Exec-") and t.rstrip().endswith("[ FAILED]"):
+            return True
+    return False
+
+
+def has_comparison(b):
+    return any(ANSI.sub("", l).startswith("** Compare-") for l in b[2:-2])
+
+
 def failed_comparison(b):
     """a `** Compare-k …` line of the block reports a failure"""
     for l in b[2:-2]:
@@ -328,11 +341,11 @@ def run(ck):
              "status_hist": {}, "blocks": 0}
     samples = []
     ntrees = 2 if q else 10
-    jobs_list = [1, 4, 16] if q else list(range(1, 17))
+    jobs_list = [1, 5, 16] if q else list(range(1, 17))
     for tr in range(ntrees):
         nchecks = rng.choice([7, 9]) if q else rng.choice([8, 12, 20, 40])
         if tr == ntrees - 1:
-            nchecks = max(nchecks, 16)
+            nchecks = max(nchecks, 12 if q else 24)
         root = ck.path("tree%d" % tr)
         specs = gen_tree(rng, root, nchecks, big=not q)
         if tr == 0:   # one tree whose checks all pass: the exit status must be EXIT_SUCCESS
@@ -360,7 +373,7 @@ def run(ck):
         stats["checks"] += len(specs)
         reference = None      # blocks of the first run (-j 1), by test name
         # the last tree is also run repeatedly with the largest number of jobs (many short commands in parallel)
-        stress = [16] * (4 if q else 30) if tr == ntrees - 1 else []
+        stress = [16] * (3 if q else 30) if tr == ntrees - 1 else []
         jl = jobs_list if (not q or tr == 0) else [1, 16]
         for j in jl + stress:
             yseed = rng.randrange(1, 2 ** 31) if j > 1 else 0
@@ -413,6 +426,13 @@ def run(ck):
                         report("tfel-check/src/TestLauncher.cxx:execute:verdict", True,
                                "%s is reported as a success although one of its comparisons failed" % n,
                                dict(rep, block=b[:16]))
+                    elif v and failed_command(b) and (not discard or not has_comparison(b)):
+                        # documented: a command's failure is discarded only by default and only if there are comparisons
+                        ok = False
+                        report("tfel-check/src/TestLauncher.cxx:execute:verdict", True,
+                               "%s is reported as a success although one of its commands failed and %s" %
+                               (n, "no comparison is declared" if not has_comparison(b) else
+                                "--discard-commands-failure=false was given"), dict(rep, block=b[:16]))
             any_failed = any(v is False for v in observed_verdict.values())
             if ok and (rc == 1) != any_failed:
                 ok = False
